@@ -1232,6 +1232,122 @@ def b_crop_pipeline(S):
         slice_from="if (", default_num="Nat", join="tuple")
 
 
+def b_line_data(S):
+    """the column cache of `LineData` (analysis/line_data.py): every array property first looks for ITS column in the wrapped frame
+    (`_column_array_property`), computes the array only when the column is absent, and then stores it under the SAME column. The five getters are
+    instantiated from their checked shape (get-column / `is None` / compute / set-column / return); the frame is the structure `LineCols`,
+    threaded through (a getter returns the array and the frame). Geometry (lengths, azimuths) and `determine_set` are parameters."""
+    src = S[LINEDATA]
+    tree = ast.parse(src)
+    cls = find_func(tree, "LineData")
+    gsrc = ast.parse(S[GENERAL])
+    col = find_func(gsrc, "Col")
+    names = {}
+    for st in col.body:
+        if isinstance(st, ast.Assign) and isinstance(st.value, ast.Constant) and isinstance(st.value.value, str):
+            names[st.targets[0].id] = st.value.value
+    want_cols = {"LENGTH": "length", "AZIMUTH": "azimuth", "AZIMUTH_SET": "azimuth_set", "LENGTH_WEIGHTS": "boundary_weight", "LENGTH_NON_WEIGHTED": "length_nw"}
+    for k in want_cols:
+        if k not in names:
+            raise Untranslatable(f"Col.{k} not found")
+    if len({names[k] for k in want_cols}) != len(want_cols):
+        raise Untranslatable("two cache columns of Col share a name")
+    cap = find_func(tree, "_column_array_property")
+    if "if column.value in gdf:" not in ast.unparse(cap) or "return None" not in ast.unparse(cap) or "gdf[column.value]" not in ast.unparse(cap):
+        raise Untranslatable("_column_array_property is not `the column if present else None`")
+
+    def getter(name):
+        for st in cls.body:
+            if isinstance(st, ast.FunctionDef) and st.name == name:
+                body = [b for b in st.body if not (isinstance(b, ast.Expr) and isinstance(b.value, ast.Constant))]
+                return body
+        raise Untranslatable(f"LineData.{name} not found")
+
+    def norm(node):
+        return " ".join(ast.unparse(node).split())
+
+    def simple(name, colkey, compute_text, var="column_array"):
+        """shape A: var = _column_array_property(column=Col.K, gdf=self._line_gdf); if var is None: [assert]; var = <compute>; self._line_gdf[Col.K.value] = var; [assert]; return var"""
+        b = [x for x in getter(name) if not isinstance(x, ast.Assert)]
+        if len(b) != 3:
+            raise Untranslatable(f"LineData.{name}: expected get / if-None / return, found {len(b)} statements")
+        if norm(b[0]) != f"{var} = _column_array_property(column=Col.{colkey}, gdf=self._line_gdf)":
+            raise Untranslatable(f"LineData.{name}: does not read its own column Col.{colkey}: {norm(b[0])}")
+        if not isinstance(b[1], ast.If) or norm(b[1].test) != f"{var} is None" or b[1].orelse:
+            raise Untranslatable(f"LineData.{name}: the computation is not guarded by `{var} is None` alone")
+        inner = [x for x in b[1].body if not isinstance(x, ast.Assert)]
+        if len(inner) != 2 or norm(inner[0]) != f"{var} = {compute_text}":
+            raise Untranslatable(f"LineData.{name}: computation changed: {[norm(x) for x in inner][:1]}")
+        if norm(inner[1]) != f"self._line_gdf[Col.{colkey}.value] = {var}":
+            raise Untranslatable(f"LineData.{name}: the computed array is not stored under Col.{colkey}: {norm(inner[1])}")
+        if norm(b[2]) != f"return {var}":
+            raise Untranslatable(f"LineData.{name}: return changed")
+
+    simple("azimuth_array", "AZIMUTH", "np.array([determine_azimuth(line, halved=True) for line in self.geometry])")
+    simple("azimuth_set_array", "AZIMUTH_SET",
+           "np.array([determine_set(azimuth, self.azimuth_set_ranges, self.azimuth_set_names, loop_around=True) for azimuth in self.azimuth_array])")
+    simple("length_boundary_weights", "LENGTH_WEIGHTS", "np.array([intersection_count_to_boundary_weight(int(inter_count)) for inter_count in self.area_boundary_intersects])")
+    simple("length_array_non_weighted", "LENGTH_NON_WEIGHTED", "self.geometry.length.to_numpy()")
+    # shape B: length_array
+    b = [x for x in getter("length_array") if not isinstance(x, ast.Assert)]
+    ok = (len(b) == 3 and norm(b[0]) == "column_array = _column_array_property(column=Col.LENGTH, gdf=self._line_gdf)" and isinstance(b[1], ast.If)
+          and norm(b[1].test) == "column_array is None" and len(b[1].body) == 2 and len(b[1].orelse) == 1
+          and norm(b[1].body[0]) == "new_column_array = self.geometry.length.to_numpy() * self.length_boundary_weights if len(self.area_boundary_intersects) > 0 else 1.0"
+          and norm(b[1].body[1]) == "self._line_gdf[Col.LENGTH.value] = new_column_array" and norm(b[1].orelse[0]) == "new_column_array = column_array"
+          and norm(b[2]) == "return new_column_array")
+    if not ok:
+        raise Untranslatable("LineData.length_array: shape changed")
+    asserts = [x for x in getter("length_array") if isinstance(x, ast.Assert)]
+    if len(asserts) != 1 or norm(asserts[0]) != "assert isinstance(new_column_array, np.ndarray)":
+        raise Untranslatable("LineData.length_array: the ndarray assertion (which refuses the scalar 1.0 of the no-boundary-data branch) changed")
+    out = "/-- names of the cache columns (class `Col`), in the order length, azimuth, azimuth_set, boundary_weight, length non-weighted -/\n"
+    out += "def line_cache_columns : List String := [" + ", ".join('"' + names[k] + '"' for k in want_cols) + "]\n\n"
+    out += """def ld_azimuth_array (azimuths : List Rat) (cols : LineCols) : List Rat × LineCols :=
+  match cols.azimuth with
+  | some column_array => (column_array, cols)
+  | none => (azimuths, { cols with azimuth := some azimuths })
+
+/-- the comprehension iterates over `self.azimuth_array` -- the getter above, which may itself fill its column -/
+def ld_azimuth_set_array (detset : Rat → String) (azimuths : List Rat) (cols : LineCols) : List String × LineCols :=
+  match cols.azimuth_set with
+  | some column_array => (column_array, cols)
+  | none =>
+    let (az, cols) := ld_azimuth_array azimuths cols
+    let column_array := az.map detset
+    (column_array, { cols with azimuth_set := some column_array })
+
+/-- storing an array whose length is not the number of rows is pandas' ValueError (`nrows` = rows of the wrapped frame) -/
+def ld_length_boundary_weights (weight : Int → Except String Int) (nrows : Nat) (area_boundary_intersects : List Int) (cols : LineCols) : Except String (List Int × LineCols) :=
+  match cols.boundary_weight with
+  | some column_array => .ok (column_array, cols)
+  | none =>
+    match area_boundary_intersects.mapM weight with
+    | .error e => .error e
+    | .ok column_array =>
+      if column_array.length = nrows then .ok (column_array, { cols with boundary_weight := some column_array }) else .error "ValueError"
+
+def ld_length_array_non_weighted (lengths : List Rat) (cols : LineCols) : List Rat × LineCols :=
+  match cols.length_nw with
+  | some column_array => (column_array, cols)
+  | none => (lengths, { cols with length_nw := some lengths })
+
+/-- `geometry.length * length_boundary_weights` when there is boundary data. Without it the code stores the scalar 1.0 under the length column (one 1.0 per row)
+and only THEN its own `assert isinstance(.., np.ndarray)` refuses the scalar: the call raises, the column stays. The frame is returned in every case. -/
+def ld_length_array (weight : Int → Except String Int) (lengths : List Rat) (area_boundary_intersects : List Int) (cols : LineCols) : Except String (List Rat) × LineCols :=
+  match cols.length with
+  | some column_array => (.ok column_array, cols)
+  | none =>
+    if area_boundary_intersects.length > 0 then
+      match ld_length_boundary_weights weight lengths.length area_boundary_intersects cols with
+      | .error e => (.error e, cols)
+      | .ok (w, cols) =>
+        let new_column_array := List.zipWith (fun (l : Rat) (k : Int) => l * (k : Rat)) lengths w
+        (.ok new_column_array, { cols with length := some new_column_array })
+    else (.error "AssertionError", { cols with length := some (List.replicate lengths.length 1) })
+"""
+    return out
+
+
 def b_dedupe(S):
     """`filter_non_unique_traces`: the key of a trace is its WKT at `int(-log10(snap))` decimals (a parameter of type K); the first trace with
     a key is kept, later ones with the same key are dropped, order preserved"""
@@ -2193,6 +2309,7 @@ ITEMS: List[Item] = [
     Item("GridSampling", GRID, ["C18"], b_grid_sampling),
     Item("IndexMargins", GENERAL, ["C16"], b_index_margins, extra_modules=[PROX]),
     Item("CropPipeline", GENERAL, ["C07", "C04", "C14", "C18"], b_crop_pipeline, deps=["CropHelpers"]),
+    Item("LineDataCache", LINEDATA, ["C08", "C15", "C11"], b_line_data, extra_modules=[GENERAL]),
     Item("Cli", CLI, ["C19"], b_cli),
     Item("ErrorColumn", TVAL, ["C19", "C13"], b_error_column),
     Item("DetermineIntersect", REL, ["C12"], b_determine_intersect),
